@@ -4,5 +4,6 @@ CONSTANTS Addrs = {1,2,3,4,5,6,7,8}
   Mode = "c"
   Variant = "faithful"
   GcAtomic = TRUE
+  Prims = {0,1}
   MinAddr = TRUE
 CHECK_DEADLOCK FALSE
